@@ -1,5 +1,486 @@
-//! C09 - monitor not written yet.
+//! C09 - streamed pkg_summary parsing is independent of chunking.
+//!
+//! Refuting events, for a well-formed stream S and a partition P of its
+//! bytes: some `write(chunk)` returns anything but `Ok(chunk.len())`; at the
+//! end `entries()` is not S's entries in order or `Display` != S; during the
+//! run `entries()` is not a prefix of the reference list, shrinks, or the
+//! printed length of the collected entries exceeds the bytes delivered.  For
+//! a stream whose j-th entry is malformed: no error by the write that
+//! delivers the end of that entry's blank line, an error of another kind than
+//! `InvalidData`, or `entries()` at the failure != the j well-formed entries
+//! before it.
+//!
+//! The reference entries come from the generator (canonical texts of model
+//! entries), never from a one-shot parse by the library.
 
-use crate::fw::Cx;
+use crate::fw::{show, CaseResult, Cx, Ev, Tier};
+use crate::gen::summary::{self as gs, CutClass, Fault, Pos, Stream};
+use crate::mon::c07::{same_values, text_diff};
+use crate::oracle::summary::{REQUIRED, VARS};
+use crate::rng::hash_strs;
+use pkgsrc::summary::SummaryStream;
+use std::io::{ErrorKind, Write};
 
-pub fn run(_cx: &mut Cx) {}
+/// Drive one partition through a fresh `SummaryStream` and check everything
+/// the property says about it.  `cuts` are the sorted chunk boundaries
+/// (duplicates and 0/len produce zero-length writes).
+fn run_partition(ev: &mut Ev, st: &Stream, cuts: &[usize]) -> CaseResult {
+    let total = st.len();
+    let chunks = gs::chunks_of(total, cuts);
+    // For a malformed stream only the entries before the bad one may ever appear.
+    let (limit, deadline) = match &st.bad {
+        Some((j, _)) => (*j, Some(st.starts[*j + 1])),
+        None => (st.entries.len(), None),
+    };
+    let mut ss = SummaryStream::new();
+    let mut delivered;
+    let mut seen = 0usize;
+    let mut failed = false;
+    ev.max("max/writes_per_partition", chunks.len() as u64);
+    for (w, &(lo, hi)) in chunks.iter().enumerate() {
+        let chunk = &st.bytes[lo..hi];
+        let res = ss.write(chunk);
+        ev.eval();
+        ev.count("writes");
+        if chunk.is_empty() {
+            ev.count("writes/zero_length");
+        }
+        delivered = hi;
+        match res {
+            Ok(n) => {
+                if n != chunk.len() {
+                    return Err(format!(
+                        "write #{w} of {} bytes (stream offset {lo}) returned Ok({n})",
+                        chunk.len()
+                    )
+                    .into());
+                }
+                if let Some(d) = deadline {
+                    if delivered >= d {
+                        return Err(format!(
+                            "write #{w} delivered the end of the malformed entry's blank line (offset {d}) and returned Ok({n}) instead of an error"
+                        )
+                        .into());
+                    }
+                }
+            }
+            Err(e) => {
+                if deadline.is_none() {
+                    return Err(format!(
+                        "write #{w} of bytes {lo}..{hi} failed on a well-formed stream (kind {:?})",
+                        e.kind()
+                    )
+                    .into());
+                }
+                if e.kind() != ErrorKind::InvalidData {
+                    return Err(format!(
+                        "write #{w} failed with kind {:?}, expected InvalidData",
+                        e.kind()
+                    )
+                    .into());
+                }
+                failed = true;
+            }
+        }
+        // invariants after every write (also after the failing one)
+        let n = ss.entries().len();
+        ev.eval();
+        if n < seen {
+            return Err(format!("entries() shrank from {seen} to {n} at write #{w}").into());
+        }
+        if n > limit {
+            return Err(format!(
+                "after write #{w} entries() holds {n} entries, but only {limit} well-formed entries precede{}",
+                if deadline.is_some() { " the malformed one" } else { " the end of the stream" }
+            )
+            .into());
+        }
+        // conservation: the collected entries cannot print longer than what was delivered
+        if st.starts[n] > delivered {
+            return Err(format!(
+                "after write #{w} ({delivered} bytes delivered) entries() holds {n} entries whose printed length is {}",
+                st.starts[n]
+            )
+            .into());
+        }
+        // the new ones are the next reference entries, in order
+        for k in seen..n {
+            let got = ss.entries()[k].to_string();
+            ev.eval();
+            if got != st.texts[k] {
+                return Err(format!(
+                    "entry {k} collected at write #{w} differs from the stream's entry {k}: {}",
+                    text_diff(&got, &st.texts[k])
+                )
+                .into());
+            }
+        }
+        seen = n;
+        if failed {
+            // entries at the failure = exactly the well-formed entries before the bad one
+            if n != limit {
+                return Err(format!(
+                    "write #{w} failed with InvalidData but entries() holds {n} entries; {limit} well-formed entries precede the malformed one"
+                )
+                .into());
+            }
+            break;
+        }
+    }
+    if deadline.is_some() && !failed {
+        return Err("every write succeeded although the stream holds a malformed entry".to_string().into());
+    }
+    // final state: all collected entries, value by value and as text
+    let entries = ss.entries();
+    if entries.len() != limit {
+        return Err(format!("at the end entries() holds {} entries, expected {limit}", entries.len()).into());
+    }
+    for k in 0..limit {
+        ev.eval();
+        same_values(&format!("entry {k} at the end"), &entries[k], &st.entries[k])?;
+        let got = entries[k].to_string();
+        if got != st.texts[k] {
+            return Err(format!("entry {k} at the end prints differently: {}", text_diff(&got, &st.texts[k])).into());
+        }
+    }
+    let printed = ss.to_string();
+    ev.eval();
+    let want = &st.bytes[..st.starts[limit]];
+    if printed.as_bytes() != want {
+        return Err(format!(
+            "Display of the collection does not reproduce the {}: {}",
+            if deadline.is_some() { "well-formed prefix of the stream" } else { "stream" },
+            text_diff(&printed, &String::from_utf8_lossy(want))
+        )
+        .into());
+    }
+    Ok(())
+}
+
+fn describe(st: &Stream, family: &str, cuts: &[usize]) -> String {
+    let shown: Vec<String> = cuts.iter().take(24).map(|c| c.to_string()).collect();
+    format!(
+        "{family} partition, cuts at [{}{}] of {}stream ({} bytes, {} entries) {}",
+        shown.join(","),
+        if cuts.len() > 24 { ",..." } else { "" },
+        match &st.bad {
+            Some((j, f)) => format!("malformed (entry {j}: {}) ", f.show()),
+            None => String::new(),
+        },
+        st.len(),
+        st.entries.len(),
+        show(&st.bytes)
+    )
+}
+
+/// One monitored case.
+fn case(cx: &mut Cx, st: &Stream, family: &'static str, cuts: Vec<usize>) {
+    cx.check(
+        || describe(st, family, &cuts),
+        |ev| {
+            ev.count(&format!("family/{family}"));
+            let mut in_char = false;
+            let mut in_sep = false;
+            for &c in &cuts {
+                match gs::classify_cut(&st.bytes, c) {
+                    CutClass::InChar => in_char = true,
+                    CutClass::InSeparator => in_sep = true,
+                    CutClass::Other => {}
+                }
+            }
+            if in_char {
+                ev.count("cut/in_multibyte_char");
+            }
+            if in_sep {
+                ev.count("cut/in_separator");
+            }
+            if !in_char && !in_sep && !cuts.is_empty() {
+                ev.count("cut/elsewhere_only");
+            }
+            if let Some((j, f)) = &st.bad {
+                ev.count(&format!("malformed/{}/entry{}of{}", f.class(), j, st.entries.len()));
+                ev.count(&format!("malformed_family/{}/{family}", f.class()));
+                if let Fault::Remove(v) = f {
+                    ev.count(&format!("malformed_removed/{}", VARS[*v].name));
+                }
+                if in_char {
+                    ev.count("malformed_cut/in_multibyte_char");
+                }
+                if in_sep {
+                    ev.count("malformed_cut/in_separator");
+                }
+            }
+            run_partition(ev, st, &cuts)?;
+            if cuts.iter().any(|&c| c > 0 && c < st.len()) {
+                let cb: Vec<u8> = cuts.iter().flat_map(|c| (*c as u32).to_le_bytes()).collect();
+                ev.nontrivial(hash_strs(&[st.bytes.as_slice(), cb.as_slice()]));
+            }
+            Ok(())
+        },
+    );
+}
+
+const FIXED: [usize; 8] = [1, 2, 3, 5, 7, 16, 64, 4096];
+
+struct Budget {
+    /// enumerate every single cut (false: a seeded sample of this many)
+    all_single: bool,
+    single_sample: usize,
+    /// all pairs when the stream is at most this long
+    all_pairs_max_len: usize,
+    /// seeded pairs otherwise
+    pair_sample: usize,
+    random: usize,
+    empties: usize,
+    fixed: &'static [usize],
+}
+
+/// All partition families over one stream.  Enumerations are spread over the
+/// shards with `mine`; `counter` numbers the enumerated partitions.
+fn families(cx: &mut Cx, st: &Stream, b: &Budget, counter: &mut u64, label: &str) {
+    let len = st.len();
+    let mut r = cx.shared_stream(label);
+    let mut mine = |cx: &Cx| {
+        *counter += 1;
+        cx.mine(*counter)
+    };
+    // one call
+    if mine(cx) {
+        case(cx, st, "one_call", vec![]);
+    }
+    // every single cut
+    if b.all_single {
+        for c in 1..len {
+            if mine(cx) {
+                case(cx, st, "single_cut", vec![c]);
+            }
+        }
+    } else {
+        // Mini: the interesting cuts first (inside characters, inside
+        // separators), then seeded others.
+        let mut special: Vec<usize> =
+            (1..len).filter(|&c| gs::classify_cut(&st.bytes, c) != CutClass::Other).collect();
+        r.shuffle(&mut special);
+        special.truncate(b.single_sample);
+        for _ in 0..b.single_sample / 2 {
+            special.push(r.range(1, len - 1));
+        }
+        for c in special {
+            if mine(cx) {
+                case(cx, st, "single_cut", vec![c]);
+            }
+        }
+    }
+    // pairs of cuts
+    if len <= b.all_pairs_max_len {
+        for c1 in 1..len {
+            for c2 in c1 + 1..len {
+                if mine(cx) {
+                    case(cx, st, "cut_pair_exhaustive", vec![c1, c2]);
+                }
+            }
+        }
+    } else {
+        for _ in 0..b.pair_sample {
+            let c1 = r.range(1, len - 1);
+            // half of the pairs are close together (both inside one character
+            // or one separator region)
+            let c2 = if r.chance(1, 2) { (c1 + r.range(1, 4)).min(len - 1) } else { r.range(1, len - 1) };
+            let mut v = vec![c1.min(c2), c1.max(c2)];
+            v.dedup();
+            if mine(cx) {
+                case(cx, st, "cut_pair_seeded", v);
+            }
+        }
+    }
+    // fixed chunk sizes (size 1 = byte at a time)
+    for &size in b.fixed {
+        let fam: &'static str = match size {
+            1 => "byte_at_a_time",
+            2 => "fixed_2",
+            3 => "fixed_3",
+            5 => "fixed_5",
+            7 => "fixed_7",
+            16 => "fixed_16",
+            64 => "fixed_64",
+            _ => "fixed_4096",
+        };
+        if mine(cx) {
+            case(cx, st, fam, gs::fixed_cuts(len, size));
+        }
+    }
+    // seeded random partitions
+    for _ in 0..b.random {
+        let cuts = gs::random_cuts(&mut r, len);
+        if mine(cx) {
+            case(cx, st, "random", cuts);
+        }
+    }
+    // zero-length chunks interleaved
+    for k in 0..b.empties {
+        let base = match k % 4 {
+            0 => gs::random_cuts(&mut r, len),
+            1 => {
+                // empty writes exactly at the separators: before, between and after the two newlines
+                let mut v = vec![];
+                for &s in &st.starts[1..] {
+                    v.extend([s - 2, s - 1, s]);
+                }
+                v.retain(|&c| c <= len);
+                v
+            }
+            2 => gs::fixed_cuts(len, *r.pick(&[1usize, 2, 3, 7, 64])),
+            _ => vec![r.range(1, len - 1)],
+        };
+        let cuts = gs::with_empty_chunks(&mut r, len, &base);
+        if mine(cx) {
+            case(cx, st, "zero_length_interleaved", cuts);
+        }
+    }
+}
+
+pub fn run(cx: &mut Cx) {
+    cx.default_budget();
+    for fam in [
+        "one_call",
+        "single_cut",
+        "cut_pair_exhaustive",
+        "cut_pair_seeded",
+        "byte_at_a_time",
+        "fixed_2",
+        "fixed_3",
+        "fixed_5",
+        "fixed_7",
+        "fixed_16",
+        "fixed_64",
+        "fixed_4096",
+        "random",
+        "zero_length_interleaved",
+    ] {
+        cx.ev.require(&format!("family/{fam}"));
+    }
+    for k in ["cut/in_multibyte_char", "cut/in_separator", "malformed_cut/in_multibyte_char", "malformed_cut/in_separator", "writes/zero_length"] {
+        cx.ev.require(k);
+    }
+    for class in ["line", "variable", "int", "missing"] {
+        cx.ev.require(&format!("malformed_family/{class}/single_cut"));
+        cx.ev.require(&format!("malformed_family/{class}/one_call"));
+        cx.ev.require(&format!("malformed_family/{class}/byte_at_a_time"));
+    }
+
+    for v in REQUIRED {
+        cx.ev.require(&format!("malformed_removed/{}", VARS[v].name));
+    }
+
+    let mini = cx.tier == Tier::Mini;
+    let mut counter = 0u64;
+
+    // ---- well-formed streams ------------------------------------------
+    // (1) small streams (1-2 compact entries): every cut and every pair of cuts
+    let small_streams = cx.pick_tier(1, 1, 2, 12);
+    let mut r = cx.shared_stream("small-streams");
+    for k in 0..small_streams {
+        let n = 1 + (k % 2) as usize;
+        // tiny values and no optional variables beyond the multi-byte tail:
+        // at most ~230 bytes per entry, so every pair of cuts is affordable
+        let st = gs::stream(&mut r, n, 0, 1, true);
+        let b = if mini {
+            Budget { all_single: false, single_sample: 40, all_pairs_max_len: 0, pair_sample: 24, random: 6, empties: 6, fixed: &[16, 64, 4096] }
+        } else {
+            Budget { all_single: true, single_sample: 0, all_pairs_max_len: 600, pair_sample: 2_000, random: 64, empties: 32, fixed: &FIXED }
+        };
+        cx.ev.max("max/stream_bytes", st.len() as u64);
+        families(cx, &st, &b, &mut counter, &format!("small-{k}"));
+    }
+    // Mini: one byte-at-a-time run and the other fixed sizes on a one-entry stream, shared out
+    if mini {
+        let st = gs::stream(&mut r, 1, 0, 1, true);
+        for (k, &size) in FIXED.iter().enumerate() {
+            counter += 1;
+            if cx.mine(counter) {
+                let fam: &'static str = ["byte_at_a_time", "fixed_2", "fixed_3", "fixed_5", "fixed_7", "fixed_16", "fixed_64", "fixed_4096"][k];
+                case(cx, &st, fam, gs::fixed_cuts(st.len(), size));
+            }
+        }
+    }
+
+    // (2) medium streams: 1-6 compact entries with optional variables
+    let medium = cx.pick_tier(0, 2, 10, 160);
+    let mut r = cx.shared_stream("medium-streams");
+    for k in 0..medium {
+        let n = 1 + (k % 6) as usize;
+        let st = gs::stream(&mut r, n, 1, 3, false);
+        let b = Budget {
+            all_single: true,
+            single_sample: 0,
+            all_pairs_max_len: 400,
+            pair_sample: cx.pick_tier(0, 200, 2_000, 2_000),
+            random: cx.pick_tier(0, 16, 200, 400),
+            empties: cx.pick_tier(0, 8, 64, 128),
+            fixed: &FIXED,
+        };
+        cx.ev.max("max/stream_bytes", st.len() as u64);
+        families(cx, &st, &b, &mut counter, &format!("medium-{k}"));
+    }
+
+    // (3) large streams from the full value generator (up to 8 KiB)
+    let large = cx.pick_tier(0, 1, 3, 40);
+    let mut r = cx.shared_stream("large-streams");
+    for k in 0..large {
+        let st = gs::big_stream(&mut r, 6 + 4 * (k as usize % 3));
+        let b = Budget {
+            all_single: true,
+            single_sample: 0,
+            all_pairs_max_len: 0,
+            pair_sample: cx.pick_tier(0, 100, 2_000, 2_000),
+            random: cx.pick_tier(0, 8, 100, 300),
+            empties: cx.pick_tier(0, 4, 32, 64),
+            fixed: &FIXED,
+        };
+        cx.ev.max("max/stream_bytes", st.len() as u64);
+        families(cx, &st, &b, &mut counter, &format!("large-{k}"));
+    }
+
+    // ---- malformed streams: each fault kind at each entry position -------
+    let rounds = cx.pick_tier(1, 1, 2, 24);
+    let mut r = cx.shared_stream("malformed-streams");
+    let mut missing_rr = 0usize;
+    for round in 0..rounds {
+        let sizes: &[usize] = if mini { &[2] } else { &[1, 2, 3, 4] };
+        for &n in sizes {
+            for j in 0..n {
+                for class in ["line", "variable", "int", "missing"] {
+                    let fault = if class == "missing" {
+                        // rotate through the eleven
+                        missing_rr += 1;
+                        Fault::Remove(REQUIRED[missing_rr % REQUIRED.len()])
+                    } else {
+                        match gs::fault_of_class(&mut r, class) {
+                            // A white-space-only line could be read as a blank
+                            // line (separator) by a lenient stream reader: not
+                            // used as the malformation of a stream.
+                            Fault::NoEq(s) if s.trim().is_empty() => Fault::NoEq("garbage".into()),
+                            f => f,
+                        }
+                    };
+                    let pos = Pos::ALL[(round as usize + j + n) % 3];
+                    let st = gs::bad_stream(&mut r, n, j, fault, pos);
+                    let b = if mini {
+                        Budget { all_single: false, single_sample: 10, all_pairs_max_len: 0, pair_sample: 3, random: 2, empties: 2, fixed: &[64] }
+                    } else {
+                        Budget {
+                            all_single: true,
+                            single_sample: 0,
+                            all_pairs_max_len: 0,
+                            pair_sample: cx.pick_tier(0, 30, 300, 600),
+                            random: cx.pick_tier(0, 4, 40, 80),
+                            empties: cx.pick_tier(0, 2, 16, 32),
+                            fixed: &FIXED,
+                        }
+                    };
+                    families(cx, &st, &b, &mut counter, &format!("bad-{round}-{n}-{j}-{class}"));
+                }
+            }
+        }
+    }
+}
